@@ -127,14 +127,14 @@ func ReturnDeposit(nonce byte, ins []*common2.Input, to common.Uint168, value in
 // hash is the hash of draft, as validation requires.
 func Proposal(nonce byte, ins []*common2.Input, outs []*common2.Output, draft []byte) interfaces.Transaction {
 	p := &payload.CRCProposal{
-		ProposalType: payload.Normal,
-		CategoryData: "verif",
-		OwnerKey:     bytes33(0x02, nonce),
-		DraftHash:    common.Hash(draft),
-		DraftData:    draft,
-		Budgets:      []payload.Budget{{Type: payload.Imprest, Stage: 0, Amount: 10}, {Type: payload.FinalPayment, Stage: 1, Amount: 20}},
-		Recipient:    Addr(0x77),
-		Signature:    []byte{1},
+		ProposalType:             payload.Normal,
+		CategoryData:             "verif",
+		OwnerKey:                 bytes33(0x02, nonce),
+		DraftHash:                common.Hash(draft),
+		DraftData:                draft,
+		Budgets:                  []payload.Budget{{Type: payload.Imprest, Stage: 0, Amount: 10}, {Type: payload.FinalPayment, Stage: 1, Amount: 20}},
+		Recipient:                Addr(0x77),
+		Signature:                []byte{1},
 		CRCouncilMemberDID:       didAddr(1),
 		CRCouncilMemberSignature: []byte{2},
 	}
